@@ -9,6 +9,10 @@
 //	    make(chan), send, receive and select into calls on the vsync shim
 //	    (see conc.go).
 //
+//	rewrite globals <package dir> <out prefix> <shim import path>
+//	    scheduling points in front of every statement that touches mutable
+//	    package-level state (see globals.go).
+//
 // Exit 3 ("cannot instrument") on any construct it does not understand.
 package main
 
@@ -34,6 +38,13 @@ func main() {
 		die("usage: rewrite imports|conc in out [old=new...]")
 	}
 	mode, in, out := os.Args[1], os.Args[2], os.Args[3]
+	if mode == "globals" {
+		if len(os.Args) != 5 {
+			die("usage: rewrite globals <package dir> <out prefix> <shim import path>")
+		}
+		globalsMode(in, out, os.Args[4])
+		return
+	}
 	subst := map[string]string{}
 	for _, a := range os.Args[4:] {
 		kv := strings.SplitN(a, "=", 2)
